@@ -1479,6 +1479,6 @@ def extra_coverage(stats) -> dict:
         "endpoint_reports_after_a_truncation (every terminal result seen, per layer and mode)":
             {k: sorted(v) for k, v in sorted(_stats["endpoint_trunc"].items())},
         "aclose_flushes_on_ssl_error (generated table)": (tr9._last_info.get("aclose") or {}).get("flushes_on_ssl_error"),
-        "exhaustive": "asynchronous transport: every byte offset of the listed sessions x both modes; scripted engines: every class "
+        "exhaustive_over": "asynchronous transport: every byte offset of the listed sessions x both modes; scripted engines: every class "
                       "of the alphabet x pattern x mode x recv/recv_into",
     }
